@@ -12,14 +12,16 @@ package internal_test
 // the harness, so the harness decides which events are delivered, in what
 // batches, and which are never delivered ("missed while the watch was down").
 // A send on the unbuffered channel returns only when the registry's watch
-// goroutine took the response; a following empty response (an etcd progress
-// notification) is accepted only when that goroutine is back in its select,
-// i.e. after the previous response has been processed completely: that is the
-// consumption handshake (no sleeps).
+// goroutine took the response. The response has been processed completely when
+// that goroutine is parked again in its receive/select: c15WatchersIdle reads
+// the goroutine states from runtime.Stack (a goroutine that was handed a value is
+// runnable/running, never "select"). That is the consumption handshake (no
+// sleeps, and nothing extra is sent through the code under test).
 
 import (
 	"context"
 	"errors"
+	"runtime"
 	"sort"
 	"strings"
 	"sync"
@@ -48,10 +50,13 @@ type c15Watch struct {
 	reqRev int64
 	cursor int           // next log index to deliver to this watcher
 	dead   chan struct{} // closed by the harness when it abandons the watcher
+
+	pumpDone chan struct{} // concurrent workload: closed when the watcher's pump goroutine exits
 }
 
 type c15Etcd struct {
 	mu       sync.Mutex
+	cond     *sync.Cond // signalled on log growth / abandon / stop (concurrent workload)
 	store    map[string]string
 	lease    map[string]clientv3.LeaseID
 	log      []c15Ev
@@ -66,12 +71,14 @@ type c15Etcd struct {
 }
 
 func newC15Etcd() *c15Etcd {
-	return &c15Etcd{
+	e := &c15Etcd{
 		store:   map[string]string{},
 		lease:   map[string]clientv3.LeaseID{},
 		nextLs:  7000,
 		kaChans: map[clientv3.LeaseID]chan *clientv3.LeaseKeepAliveResponse{},
 	}
+	e.cond = sync.NewCond(&e.mu)
+	return e
 }
 
 func (e *c15Etcd) revLocked() int64 { return c15BaseRev + int64(len(e.log)) }
@@ -204,6 +211,8 @@ func (e *c15Etcd) Watch(ctx context.Context, key string, opts ...clientv3.OpOpti
 		ch:     make(chan clientv3.WatchResponse),
 		reqRev: op.Rev(),
 		dead:   make(chan struct{}),
+
+		pumpDone: make(chan struct{}),
 	}
 	if w.reqRev == 0 {
 		w.cursor = len(e.log) // "from now"
@@ -303,3 +312,75 @@ func c15Send(w *c15Watch, resp clientv3.WatchResponse) (ok bool, abandoned bool)
 }
 
 func (w *c15Watch) wants(ev c15Ev) bool { return c15Match(ev.key, w.prefix, !w.exact) }
+
+// ---- goroutine states
+
+const c15Pkg = "github.com/gotid/god/lib/discov/internal."
+
+type c15G struct {
+	state string // select, chan receive, running, runnable, semacquire, sync.Mutex.Lock, ...
+	top   string // function of the innermost frame
+	text  string
+}
+
+var (
+	c15StackMu  sync.Mutex
+	c15StackBuf = make([]byte, 128<<10)
+)
+
+// c15Goroutines returns every goroutine except the caller.
+func c15Goroutines() []c15G {
+	c15StackMu.Lock()
+	defer c15StackMu.Unlock()
+	var n int
+	for {
+		n = runtime.Stack(c15StackBuf, true)
+		if n < len(c15StackBuf) {
+			break
+		}
+		c15StackBuf = make([]byte, 2*len(c15StackBuf))
+	}
+	blocks := strings.Split(string(c15StackBuf[:n]), "\n\n")
+	var out []c15G
+	for i, b := range blocks {
+		if i == 0 || !strings.HasPrefix(b, "goroutine ") {
+			continue
+		}
+		g := c15G{text: b}
+		if lb := strings.IndexByte(b, '['); lb >= 0 {
+			rest := b[lb+1:]
+			if rb := strings.IndexAny(rest, ",]"); rb >= 0 {
+				g.state = rest[:rb]
+			}
+		}
+		if nl := strings.IndexByte(b, '\n'); nl >= 0 {
+			line := b[nl+1:]
+			if e := strings.IndexByte(line, '\n'); e >= 0 {
+				line = line[:e]
+			}
+			if p := strings.LastIndexByte(line, '('); p >= 0 {
+				line = line[:p]
+			}
+			g.top = line
+		}
+		out = append(out, g)
+	}
+	return out
+}
+
+// c15WatchersIdle: every goroutine that is inside the package under test is
+// parked in a receive/select whose innermost frame is in that package (the
+// watch loop), and there are at least min of them.
+func c15WatchersIdle(min int) bool {
+	n := 0
+	for _, g := range c15Goroutines() {
+		if !strings.Contains(g.text, c15Pkg) {
+			continue
+		}
+		if (g.state != "select" && g.state != "chan receive") || !strings.HasPrefix(g.top, c15Pkg) {
+			return false
+		}
+		n++
+	}
+	return n >= min
+}
